@@ -6,6 +6,8 @@ mod fuzzrun;
 mod lexgen;
 #[path = "../lex/litgen.rs"]
 mod litgen;
+#[path = "../lex/litrun.rs"]
+mod litrun;
 #[path = "../lex/obs.rs"]
 mod obs;
 
@@ -28,6 +30,17 @@ fn replay(args: &[String]) {
     pvh::alpha::install_quiet_panic_hook();
     let results = par_map(&lines, |_, line| {
         let v: Value = serde_json::from_str(line).expect("text json");
+        // dimension audit: {"parts": [[bytes, copies], ...]} = a scaled text (spec/MC_LexBig.tla), built here
+        if let Some(parts) = v.get("parts").and_then(|p| p.as_array()) {
+            let mut s: Vec<u8> = Vec::new();
+            for part in parts {
+                let unit = obs::bytes_of(&part[0]);
+                for _ in 0..part[1].as_u64().unwrap_or(0) {
+                    s.extend_from_slice(&unit);
+                }
+            }
+            return obs::observe(&s).to_string();
+        }
         let s = obs::bytes_of(if v.is_array() { &v } else { &v["s"] });
         obs::observe(&s).to_string()
     });
@@ -82,6 +95,76 @@ fn record(args: &[String]) {
             }
         }
     }
+    // dimension audit: long soups (10..70 KB, thousands of lines; a generator of their own), recorded as line-aligned
+    // WINDOWS with rebased offsets and line numbers -> <prefix>.big.<c>.ndjson (three random windows, the end of the
+    // text, the neighbourhood of the offsets 2^12 and 2^16)
+    let nbig: usize = args.get(4).map(|x| x.parse().unwrap()).unwrap_or(0);
+    let idx: Vec<usize> = (0..nbig).collect();
+    let results = par_map(&idx, |_, i| {
+        let mut r = pvh::rng::Rng::new(seed, 0xb16_0000 + *i as u64);
+        let n = r.range(1500, 7000);
+        let eol = r.weighted(&[50, 25, 25]);
+        let text = if *i == 0 {
+            // the first long text counts: 70 000 lines `<k> 0x<k> <k>u32`, i.e. 210 000 integer payloads, 140 000 of
+            // them distinct (payload tables beyond 2^16 entries; the windows show whether token k still has value k)
+            let mut t = String::new();
+            for k in 0..70_000u32 {
+                t.push_str(&format!("{k} 0x{k:x} {k}u32\n"));
+            }
+            t
+        } else {
+            lexgen::long_soup(&mut r, n, eol)
+        };
+        // every sixth long text gets 12 arbitrary bytes (then it is, as a rule, not UTF-8: second generation only);
+        // windows are also cut around them
+        let mut raw: Vec<u8> = text.into_bytes();
+        let mut hits: Vec<usize> = Vec::new();
+        if *i % 6 == 5 && !raw.is_empty() {
+            for _ in 0..12 {
+                let at = r.below(raw.len());
+                raw[at] = r.next() as u8;
+                hits.push(at);
+            }
+        }
+        let bytes: &[u8] = &raw;
+        let o = obs::observe(bytes);
+        let empty = vec![];
+        let dt = o["d"]["t"].as_array().unwrap_or(&empty);
+        let at = o["a"]["t"].as_array().unwrap_or(&empty);
+        if o["d"].get("panic").is_some() || o.get("a").map(|a| a.get("panic").is_some()).unwrap_or(false) {
+            // a panic is an observation: recorded whole (TLC rejects it)
+            let mut v = vec![recording("delta", bytes, &o["d"], true)];
+            if let Some(a) = o.get("a") {
+                v.push(recording("alpha", bytes, a, true));
+            }
+            return v;
+        }
+        let ls = fuzzrun::line_starts_of(bytes);
+        let mut spans = Vec::new();
+        for _ in 0..3 {
+            let ws = ls[r.below(ls.len())];
+            if ws < bytes.len() {
+                spans.push((ws, fuzzrun::window_end(&ls, ws, 700, bytes.len())));
+            }
+        }
+        spans.extend(fuzzrun::fixed_windows(&ls, 700, bytes.len()));
+        for h in hits.iter().take(4) {
+            let ws = *ls.iter().rev().find(|s| **s <= h.saturating_sub(200)).unwrap_or(&0);
+            // (the window ends at the first line start behind both ws + 500 and the arbitrary byte)
+            spans.push((ws, fuzzrun::window_end(&ls, ws, 500usize.max(*h + 1 - ws), bytes.len())));
+        }
+        fuzzrun::cut_windows(bytes, dt, at, &spans, false, &json!({"big": *i, "len": bytes.len()}))
+    });
+    let per = nbig.div_ceil(chunks).max(1);
+    for (c, part) in results.chunks(per).enumerate() {
+        let path = format!("{prefix}.big.{c}.ndjson");
+        let mut f = std::io::BufWriter::new(std::fs::File::create(&path).expect("create trace"));
+        for lines in part {
+            for l in lines {
+                writeln!(f, "{l}").unwrap();
+            }
+        }
+    }
 }
 
 fn fuzz(args: &[String]) {
@@ -93,6 +176,9 @@ fn fuzz(args: &[String]) {
     let chunks: usize = args[4].parse::<usize>().unwrap().max(1);
     let windows: usize = args[5].parse().unwrap();
     let window_len: usize = args[6].parse().unwrap();
+    let big_sizes: Option<Vec<usize>> =
+        args.get(7).map(|x| x.split(',').filter(|y| !y.is_empty()).map(|y| y.parse().unwrap()).collect());
+    let fixed_every: usize = args.get(8).map(|x| x.parse().unwrap()).unwrap_or(1).max(1);
     pvh::alpha::install_quiet_panic_hook();
     let idx: Vec<usize> = (0..runs).collect();
     let results = par_map(&idx, |_, i| {
@@ -108,8 +194,14 @@ fn fuzz(args: &[String]) {
                 _ => 1,
             }
         };
+        // dimension audit: the LAST runs ask for sizes beyond 64 KB (argument 8: e.g. "128,256")
+        let kb = match &big_sizes {
+            Some(sizes) if *i + sizes.len() >= runs && runs > 64 + sizes.len() => sizes[*i + sizes.len() - runs],
+            _ => kb,
+        };
         let run_seed = seed.wrapping_mul(1_000_003).wrapping_add(*i as u64);
-        fuzzrun::run_one(run_seed, kb, windows, window_len)
+        // argument 9: the windows at fixed places (end of the output, powers of two) only in every n-th run
+        fuzzrun::run_one_with(run_seed, kb, windows, window_len, *i % fixed_every == 0 || kb > 64)
     });
     let mut f = std::io::BufWriter::new(std::fs::File::create(&args[2]).expect("create summary"));
     for r in &results {
@@ -139,6 +231,44 @@ fn lit(args: &[String]) {
         let v: Value = serde_json::from_str(line).expect("program json");
         let src = v["src"].as_str().unwrap_or("");
         let run = v["run"].as_bool().unwrap_or(false);
+        // dimension audit: {"mods": [[name, source], ...]} = a program of several modules; {"raw": true} = the
+        // standard output is reported as it is ("stdout_hex"), not converted to text; {"timeout": seconds}
+        let raw = v["raw"].as_bool().unwrap_or(false);
+        let timeout = v["timeout"].as_u64().unwrap_or(20);
+        if let Some(mods) = v["mods"].as_array() {
+            let files: Vec<(String, String)> = mods
+                .iter()
+                .map(|m| (m[0].as_str().unwrap_or("m.pn").to_string(), m[1].as_str().unwrap_or("").to_string()))
+                .collect();
+            let o = litrun::run_multi(&files);
+            let mut out = o.to_json();
+            if run {
+                if let Some(ir) = &o.ir {
+                    match litrun::run_lli_raw(ir, timeout, 64 << 20) {
+                        Ok((stdout, code)) => {
+                            out["stdout_hex"] = json!(litrun::hex(&stdout));
+                            out["exit"] = json!(code);
+                        }
+                        Err(e) => out["lli"] = json!(e),
+                    }
+                }
+            }
+            return out.to_string();
+        }
+        if raw {
+            let o = pvh::alpha::run_single(src, "case.pn", if run { pvh::alpha::Upto::Ir } else { pvh::alpha::Upto::Resolve }, false);
+            let mut out = o.to_json();
+            if let Some(ir) = &o.ir {
+                match litrun::run_lli_raw(ir, timeout, 64 << 20) {
+                    Ok((stdout, code)) => {
+                        out["stdout_hex"] = json!(litrun::hex(&stdout));
+                        out["exit"] = json!(code);
+                    }
+                    Err(e) => out["lli"] = json!(e),
+                }
+            }
+            return out.to_string();
+        }
         let upto = if run { pvh::alpha::Upto::Ir } else { pvh::alpha::Upto::Resolve };
         let o = pvh::alpha::run_single(src, "case.pn", upto, false);
         let mut out = o.to_json();
@@ -201,6 +331,26 @@ fn fuzz_one(args: &[String]) {
     println!("{}", serde_json::to_string_pretty(&s).unwrap());
 }
 
+/// C19, the real entry point: `fuzz-file <file written by penne fuzz tokens --kb N --out-dir D> <kb> <summary-out> <trace-out> <window-bytes>`
+fn fuzz_file(args: &[String]) {
+    if args.len() < 5 {
+        usage();
+    }
+    let kb: usize = args[1].parse().unwrap();
+    let window_len: usize = args[4].parse().unwrap();
+    pvh::alpha::install_quiet_panic_hook();
+    let (text, status) = match std::fs::read(&args[0]) {
+        Ok(t) => (t, "ok".to_string()),
+        Err(e) => (Vec::new(), format!("no output file: {e}")),
+    };
+    let r = fuzzrun::analyze(&text, status, 0, kb, 1, window_len);
+    std::fs::write(&args[2], format!("{}\n", r.summary)).expect("write summary");
+    let mut f = std::io::BufWriter::new(std::fs::File::create(&args[3]).expect("create trace"));
+    for l in &r.recordings {
+        writeln!(f, "{l}").unwrap();
+    }
+}
+
 fn show(args: &[String]) {
     let v: Value = serde_json::from_str(&args[0]).expect("json byte array");
     let s = obs::bytes_of(&v);
@@ -230,6 +380,7 @@ fn main() {
         "record" => record(&args[1..]),
         "fuzz" => fuzz(&args[1..]),
         "fuzz-one" => fuzz_one(&args[1..]),
+        "fuzz-file" => fuzz_file(&args[1..]),
         "lit" => lit(&args[1..]),
         "lit-record" => lit_record(&args[1..]),
         "show" => show(&args[1..]),
